@@ -219,6 +219,16 @@ def build_tree(base: str, where: str, bad_defs: str, helpers: bool):
     elif where == "version":
         files["v0/model.yml"] = VALID_MAIN + H + bad_defs
         bad_file = "v0/model.yml"
+    elif where in ("version-multi-first", "version-multi-last"):
+        # the offending previous version is one of three; the other two are valid and much larger (they take longer to parse and validate)
+        files["v0/model.yml"] = VALID_MAIN + H + bad_defs
+        bad_file = "v0/model.yml"
+        big = VALID_MAIN + "".join("Filler%d: !record\n  fields:\n    a: int\n    b: string*\n    c: Keep?\n    d: [int, string, float]\n" % i for i in range(250))
+        for v in ("v1", "v2"):
+            files[v + "/_package.yml"] = files["v0/_package.yml"]
+            files[v + "/model.yml"] = big
+        order = ["v0", "v1", "v2"] if where.endswith("first") else ["v1", "v2", "v0"]
+        files["main/_package.yml"] = files["main/_package.yml"].replace("versions:\n  v0: ../v0\n", "versions:\n" + "".join("  %s: ../%s\n" % (v, v) for v in order))
     elif where in DOC2:
         bad_file = DOC2[where]
     elif where in LINKED:
@@ -328,10 +338,10 @@ def run(ctx):
         for pos in POSITIONS:
             if rid == "stream-outside-step" and pos == "step":
                 continue   # a stream *is* legal as the type of a protocol step
-            for where in wheres + (list(LINKED) + list(DOC2) if pos in ("field", "step") else []):
+            for where in wheres + (list(LINKED) + list(DOC2) + ["version-multi-first", "version-multi-last"] if pos in ("field", "step") else []):
                 if quick and where == "main2" and pos not in ("field", "step"):
                     continue
-                if quick and (where in LINKED or where in DOC2) and (pos != "field" or ri % 3):
+                if quick and (where in LINKED or where in DOC2 or where.startswith("version-multi")) and (pos != "field" or ri % 3):
                     continue
                 jobs.append(("inject", rid, named, embed(pos, ty, "Inj"), True, pos, where))
     for rid, named, defs in DEF_RULES:
@@ -343,7 +353,7 @@ def run(ctx):
             continue
         if controls.get(rid) != "rejected":
             continue
-        for where in wheres + (["main-link", "main-doc2"] if "\n---\n" not in defs else []):
+        for where in wheres + (["main-link", "main-doc2", "version-multi-first", "version-multi-last"] if "\n---\n" not in defs else []):
             jobs.append(("inject", rid, named, defs, False, "def", where))
 
     for job, cdir, pkgdir, bad_file, bad_dir, res in pmap(run_case, jobs):
